@@ -16,15 +16,20 @@ CONSTANTS MaxLen, MaxV, Wts,
           SharedPos,     \* TRUE = deviation: with a fixed delta the linearised positions
                          \*        log10(-ln(1-p^(1/delta))) are kept in a process-wide table keyed by the
                          \*        sample size only, so an earlier fit with another delta supplies them
+          StaleDelta,    \* TRUE = deviation: with a fixed delta the fit uses the object's CURRENT delta attribute
+                         \*        (left by an earlier fit / an assignment) instead of the f_delta in force
           HistLen        \* histories (an earlier fixed-delta fit on an equally long sample) are explored
                          \* for data vectors up to this length
 VARIABLES pc, method, wk, F, d, w, ord, cur,
           dcode,         \* the delta in force: 0 = free, 1 / 2 = two different fixed values
           prev,          \* history: 0 = no earlier fit; 1 / 2 = an earlier fit of ANOTHER instance with that
                          \*          fixed delta on a sample of the same length
+          objd,          \* object history: 0 = fresh object (its delta is the f_delta in force); 1 / 2 = the
+                         \*   object's delta attribute holds that other value (an earlier fit with a free or another
+                         \*   fixed delta, an assignment, a deepcopy of such an object) and f_delta was set afterwards
           lind           \* the delta the linearised positions handed to the regression were computed for
 
-vars == <<pc, method, wk, F, d, w, ord, cur, dcode, prev, lind>>
+vars == <<pc, method, wk, F, d, w, ord, cur, dcode, prev, objd, lind>>
 
 Methods == {"lsq", "wlsq", "mle", "other"}
 DataVecs == UNION {[1..n -> 0..MaxV] : n \in 1..MaxLen}
@@ -47,6 +52,7 @@ Init ==
     /\ lind = -1
     /\ dcode \in IF F = {"delta"} THEN {1, 2} ELSE {0}
     /\ prev \in IF Len(d) <= HistLen THEN {0, 1, 2} ELSE {0}
+    /\ objd \in IF Len(d) <= HistLen /\ F = {"delta"} THEN {0, 1, 2} ELSE {0}
 
 Dispatch ==
     /\ pc = "start"
@@ -54,39 +60,41 @@ Dispatch ==
              ELSE IF wk \in BadWeights THEN "ValueError"         \* the code checks weights first
              ELSE IF ByFixed(F) = "NotImplementedError" THEN "NotImplementedError"
              ELSE IF ZerosFirst THEN "dropfirst" ELSE "sorting"
-    /\ UNCHANGED <<method, wk, F, d, w, ord, cur, dcode, prev, lind>>
+    /\ UNCHANGED <<method, wk, F, d, w, ord, cur, dcode, prev, objd, lind>>
 
 DropFirst ==                                       \* only under the ZerosFirst deviation
     /\ pc = "dropfirst"
     /\ cur' = DropZeroStep(cur)
     /\ pc' = "sorting"
-    /\ UNCHANGED <<method, wk, F, d, w, ord, dcode, prev, lind>>
+    /\ UNCHANGED <<method, wk, F, d, w, ord, dcode, prev, objd, lind>>
 
 Sort ==
     /\ pc = "sorting"
     /\ ord' = ArgSortObs(cur, wk, TieByWeight)
     /\ cur' = SortStep(cur, ord')
     /\ pc' = "weights"
-    /\ UNCHANGED <<method, wk, F, d, w, dcode, prev, lind>>
+    /\ UNCHANGED <<method, wk, F, d, w, dcode, prev, objd, lind>>
 
 Weights ==
     /\ pc = "weights"
     /\ cur' = IF wk = "array" THEN CoSortStep(cur, ord, CoSort) ELSE KeywordStep(cur, wk)
     /\ pc' = "ranking"
-    /\ UNCHANGED <<method, wk, F, d, w, ord, dcode, prev, lind>>
+    /\ UNCHANGED <<method, wk, F, d, w, ord, dcode, prev, objd, lind>>
 
 Rank ==
     /\ pc = "ranking"
     /\ cur' = RankStep(cur, PosRule)
-    /\ lind' = IF SharedPos /\ F = {"delta"} /\ prev # 0 THEN prev ELSE dcode
+    /\ lind' = IF SharedPos /\ F = {"delta"} /\ prev # 0 THEN prev
+               ELSE IF StaleDelta /\ F = {"delta"} /\ objd # 0 THEN objd
+               ELSE dcode
     /\ pc' = "dropping"
-    /\ UNCHANGED <<method, wk, F, d, w, ord, dcode, prev>>
+    /\ UNCHANGED <<method, wk, F, d, w, ord, dcode, prev, objd>>
 
 DropZeros ==
     /\ pc = "dropping"
     /\ cur' = DropZeroStep(cur)
     /\ pc' = ByFixed(F)
-    /\ UNCHANGED <<method, wk, F, d, w, ord, dcode, prev, lind>>
+    /\ UNCHANGED <<method, wk, F, d, w, ord, dcode, prev, objd, lind>>
 
 Next == Dispatch \/ DropFirst \/ Sort \/ Weights \/ Rank \/ DropZeros
 Spec == Init /\ [][Next]_vars
@@ -118,5 +126,5 @@ LinearisedForOwnDelta == Done => lind = dcode
 
 (* ---- leg R: the enumerated inputs *)
 CaseRec == [method |-> method, wk |-> wk, fixed |-> F, d |-> d, w |-> w]
-Emit == pc = "start" /\ prev = 0 /\ dcode <= 1 => PrintT(<<"BEH", ToJson(CaseRec)>>)
+Emit == pc = "start" /\ prev = 0 /\ objd = 0 /\ dcode <= 1 => PrintT(<<"BEH", ToJson(CaseRec)>>)
 =============================================================================
